@@ -102,6 +102,16 @@ func checkC10(c *Ctx) {
 	// R10.7 a value that fails to convert is a rejection, never a silent fallback to something the file does not say
 	ruleErrorsReturnedAs(c, pf.regionFuncs(), "R10.7", nil)
 	c.MinCount("R10.7", 8)
+	// R10.1c presence must be representable: the optional *_negative fields are pointers in the decoded struct (with a plain
+	// value "cc_negative = 0" and "no cc_negative" are the same thing)
+	for f, path := range leaves {
+		if !strings.HasSuffix(path, "_negative") || strings.HasSuffix(path, "channel_offset_negative") {
+			continue
+		}
+		_, isPtr := f.Type().Underlying().(*types.Pointer)
+		c.Check(isPtr, "R10.1c", "config.TOMLDeviceConfig/"+path+"/optional-is-pointer", c.P.Pos(f.Pos()), "decoded into a pointer: absence and zero are distinguishable",
+			"the optional field "+path+" is decoded into a plain value: a stated `"+path[strings.LastIndex(path, ".")+1:]+" = 0` cannot be told from an absent one, so it is silently dropped (or silently assumed)")
+	}
 	ruleEvCodeProvenance(c, pf)
 	c.importRules(checkC11, []string{"R11.1", "R11.2", "R11.3", "R11.4"}, "R10.9") // a note given by name is accepted iff it is one of the 128 names, and means that note
 	c.MinCount("R10.8", 2)
